@@ -52,6 +52,34 @@ func ruleNegOrigin(w *World, r *RuleResult) {
 		// several call sites in one function get an ordinal by the half argument's shape
 		e := w.exprOf(f, c.Common().Args[2])
 		good, other := negLeaves(f, e)
+		// the sign may be handed to an unexported helper as a plain bool: judge it at the helper's call sites
+		if len(good) == 0 && (f.Object() == nil || !f.Object().Exported()) {
+			if pr, isP := c.Common().Args[2].(*ssa.Parameter); isP {
+				idx := -1
+				for i, q := range f.Params {
+					if q == pr {
+						idx = i
+					}
+				}
+				callers := w.callersOf(f)
+				all := idx >= 0 && len(callers) > 0
+				var via []string
+				for _, cs := range callers {
+					if cs.Common().IsInvoke() || idx >= len(cs.Common().Args) {
+						all = false
+						continue
+					}
+					g2, _ := negLeaves(cs.Parent(), w.exprOf(cs.Parent(), cs.Common().Args[idx]))
+					if len(g2) == 0 {
+						all = false
+					}
+					via = append(via, g2...)
+				}
+				if all {
+					good = via
+				}
+			}
+		}
 		if n := countKey(r, key); n > 0 {
 			key = fmt.Sprintf("%s #%d", key, n+1)
 		}
